@@ -221,6 +221,19 @@ func c04Gen(r *rand.Rand, n int, tier string) []string {
 				pts = append(pts, fmt.Sprintf("%s,%s,%s,%s,%d,0,-,-", hxs(pick(r, []string{"value", "level", "tag"})), hxs(fmt.Sprint(r.Intn(40))),
 					valStr(float64(r.Intn(1000))), hxs(pick(r, []string{"", "t"})), tick()))
 			}
+			if r.Intn(10) == 0 {
+				// a batch the store must refuse as a whole (a NaN value — bare, next to a text, or in a tombstoned point): it is
+				// answered with an error and leaves nothing in the file
+				nan := pick(r, []string{"%s,%s,nan,-,%d,0,-,-", "%s,%s,nan,%s,%d,0,-,-", "%s,%s,nan,-,%d,1,-,-"})
+				var x string
+				if strings.Count(nan, "%s") == 3 {
+					x = fmt.Sprintf(nan, hxs("value"), hxs(fmt.Sprint(r.Intn(40))), hxs("fault"), tick())
+				} else {
+					x = fmt.Sprintf(nan, hxs("value"), hxs(fmt.Sprint(r.Intn(40))), tick())
+				}
+				k := r.Intn(len(pts) + 1)
+				pts = append(pts[:k], append([]string{x}, pts[k:]...)...)
+			}
 			if r.Intn(6) == 0 {
 				i := r.Intn(len(nodes))
 				par := "R"
